@@ -35,9 +35,13 @@ using namespace llbuild::buildsystem;
 
 CommandSignature ExternalCommand::getSignature() const {
   CommandSignature code(getName());
+  // The length of each list is part of the signature, so that moving an element
+  // from the end of one list to the start of the next changes it.
+  code = code.combine(uint64_t(inputs.size()));
   for (const auto* input: inputs) {
     code = code.combine(input->getName());
   }
+  code = code.combine(uint64_t(outputs.size()));
   for (const auto* output: outputs) {
     code = code.combine(output->getName());
   }
